@@ -209,6 +209,19 @@ func checkC02(t *testing.T, sc *Scenario, rec *Recorder) []Diff {
 	for f := range forms {
 		labels = append(labels, "form:"+f)
 	}
+	// a run that fails although nothing but genuine replies (in whatever form, however often) came in has lost
+	// every one of them
+	if f.Failed && f.O != nil && f.O.Err != nil && f.O.Panic == "" && f.O.Deadlock == "" && f.O.Wire != nil && !f.O.Wire.Overrun && len(sc.Faults) == 0 && len(sc.Muts) == 0 {
+		genuine := 0
+		for _, e := range f.O.Wire.Reads(0) {
+			if e.Tag != nil && e.Tag.Class == "genuine" {
+				genuine++
+			}
+		}
+		if genuine > 0 {
+			ds = append(ds, Diff{"C02", "all-replies-lost", fmt.Sprintf("the run read %d genuine replies and failed instead of reporting them: %v", genuine, f.O.Err)})
+		}
+	}
 	rec.Case(scenarioKey(sc), nt && !f.Failed, sampleOf(sc, f), labels...)
 	return ds
 }
@@ -222,7 +235,7 @@ func TestC02(t *testing.T) {
 
 // TestC02Product enumerates form x variant x TTL position x ISN completely.
 func TestC02Product(t *testing.T) {
-	rec := NewRecorder("C02", "C02Product", "full product: reply form x variant x strict/relaxed x TTL range in {1..3, 2..4, 128..130, 253..255} x SACK ISN set, plus SACK runs whose duplicate ACKs report two blocks with a hole between them for every position of the 2^32 wrap relative to the blocks; exhaustive over that finite product")
+	rec := NewRecorder("C02", "C02Product", "full product: reply form x variant x strict/relaxed x TTL range in {1..3, 2..4, 128..130, 253..255} x SACK ISN set, plus runs in which every reply is delivered two or three times, plus SACK runs whose duplicate ACKs report two blocks with a hole between them for every position of the 2^32 wrap relative to the blocks; exhaustive over that finite product")
 	rec.Exhaustive = true
 	RunCases(t, rec, func(yield func(*Scenario) bool) {
 		var forms []FormSpec
@@ -263,6 +276,30 @@ func TestC02Product(t *testing.T) {
 						}
 						if f.NAT && (strict || kind == "icmp-echo") {
 							continue
+						}
+						if v == "sack" {
+							sc.Target, sc.Port = "127.9.8.7", 0
+						}
+						if !yield(sc) {
+							return
+						}
+					}
+				}
+			}
+		}
+		// every reply delivered two or three times: more matched packets than probes in one run
+		for _, v := range AllVariants {
+			for _, strict := range []bool{true, false} {
+				for _, dd := range []int{3, 4} {
+					for _, copies := range [][]int64{{5100}, {5100, 5200}} {
+						sc := &Scenario{Variant: v, Strict: strict, MinTTL: 1, MaxTTL: 4, TimeoutMs: 300, DelayMs: 10, PollMs: 10, Target: "93.184.216.34", Port: 443,
+							EchoBase: 7, PktIDBase: 0x300, Script: FlowScript{DestDist: dd, Default: HopSpec{DelayUs: 5000, DupsUs: copies}},
+							Sack: SackCfg{Permit: true, TS: true, ClientNxt: 0x1000, ServerISN: 5, SynAckUs: 100}}
+						if sc.ProbeKind() == "icmp-echo" && !strict {
+							continue
+						}
+						if sc.IsV6() {
+							sc.Target = "2001:db8:ffff::1"
 						}
 						if v == "sack" {
 							sc.Target, sc.Port = "127.9.8.7", 0
